@@ -11,6 +11,7 @@ import (
 	"strings"
 
 	"amverif/codec"
+	"amverif/conc"
 	"amverif/core"
 	"amverif/helpers"
 )
@@ -27,6 +28,8 @@ func main() {
 		os.Exit(cmdCodec(os.Args[2:]))
 	case "helpers":
 		os.Exit(cmdHelpers(os.Args[2:]))
+	case "conc":
+		os.Exit(cmdConc(os.Args[2:]))
 	case "sweepchild":
 		seed, _ := strconv.ParseInt(os.Args[2], 10, 64)
 		samples, _ := strconv.Atoi(os.Args[3])
@@ -65,6 +68,125 @@ func cmdHelpers(args []string) int {
 	}
 	for _, f := range res.Failures {
 		fmt.Printf("MONITOR-FAIL finding=%q %s\n", f.Finding, f.Msg)
+	}
+	if len(res.Disagreements) > 0 || len(res.Failures) > 0 {
+		return 1
+	}
+	return 0
+}
+
+// cmdConc: the concurrency engine (scheduled real goroutines vs. the queue
+// protocol model) followed by the sequential core pipeline under the same
+// property's projection and monitors.
+func cmdConc(args []string) int {
+	fs := flag.NewFlagSet("conc", flag.ExitOnError)
+	prop := fs.String("prop", "C04", "")
+	tier := fs.String("tier", "quick", "quick|thorough")
+	seed := fs.Int64("seed", 1, "PRNG seed")
+	n := fs.Int("cases", 0, "generated cases")
+	driver := fs.String("driver", "/verif/lean/.lake/build/bin/amdriver", "model driver")
+	out := fs.String("out", "/verif/out", "")
+	result := fs.String("result", "", "")
+	corpus := fs.String("corpus", "", "")
+	replay := fs.String("replay", "", "")
+	search := fs.Bool("search", false, "")
+	fs.Parse(args)
+	if *replay != "" && strings.HasSuffix(*replay, ".case") {
+		return cmdCore(args)
+	}
+	if *replay != "" {
+		c, err := conc.LoadCase(*replay)
+		if err != nil {
+			fmt.Println(err)
+			return 2
+		}
+		run := conc.Exec(c)
+		model, err := core.RunModel(*driver, []core.Case{{Lines: run.Lines}})
+		if err != nil {
+			fmt.Println(err)
+			return 2
+		}
+		rc := 0
+		for i := range run.Lines {
+			mark := " "
+			if i >= len(model[0]) || model[0][i] != run.Obs[i] {
+				mark, rc = "!", 1
+			}
+			mo := ""
+			if i < len(model[0]) {
+				mo = model[0][i]
+			}
+			fmt.Printf("%s %-12s impl : %s\n               model: %s\n", mark, run.Lines[i], run.Obs[i], mo)
+		}
+		for _, e := range run.Events {
+			fmt.Printf("event thread=%d call=%d %s\n", e.Thread, e.Call, e.Point)
+		}
+		if run.Err != "" {
+			fmt.Println("ERROR", run.Err)
+			rc = 1
+		}
+		for _, f := range run.Failures {
+			fmt.Printf("MONITOR %s finding=%q: %s\n", *prop, f.Finding, f.Msg)
+			rc = 1
+		}
+		fmt.Printf("picks=%v queue-at-end=%d\n", run.Picks, run.QLenEnd)
+		return rc
+	}
+	if *n == 0 {
+		*n = 400
+		if *tier == "thorough" {
+			*n = 6000
+		}
+	}
+	if *search {
+		*n *= 4
+	}
+	var dirs []string
+	if *corpus != "" {
+		dirs = strings.Split(*corpus, ",")
+	}
+	res := conc.RunPipeline(*prop, *seed, *tier, *driver, *out, *n, *search, dirs)
+	// sequential side
+	o, def := optsFor(*prop, *tier)
+	if *search {
+		def *= 4
+	}
+	p := &core.Pipeline{Prop: *prop, Seed: *seed, Tier: *tier, Driver: *driver, OutDir: *out,
+		Opts: o, NCases: def, Workers: 12, Search: *search, Corpus: dirs}
+	seq := p.Run()
+	res.Cases += seq.Cases
+	res.Evaluations += seq.Evaluations
+	res.Transitions += seq.Transitions
+	res.HandlerCalls += seq.HandlerCalls
+	res.Crashes += seq.Crashes
+	res.CorpusCases += seq.CorpusCases
+	res.DistinctNontrivial += seq.DistinctNontrivial
+	for k, v := range seq.Tags {
+		res.Tags["seq:"+k] += v
+	}
+	for k, v := range seq.Ops {
+		res.Ops[k] += v
+	}
+	for k, v := range seq.Results {
+		res.Results["seq:"+k] += v
+	}
+	res.Disagreements = append(res.Disagreements, seq.Disagreements...)
+	res.Failures = append(res.Failures, seq.Failures...)
+	res.Note += seq.Note
+	res.WallS += seq.WallS
+	b, _ := json.MarshalIndent(res, "", " ")
+	if *result != "" {
+		os.WriteFile(*result, b, 0o644)
+	}
+	fmt.Printf("cases=%d evaluations=%d transitions=%d disagreements=%d failures=%d wall=%.1fs extra=%v\n",
+		res.Cases, res.Evaluations, res.Transitions, len(res.Disagreements), len(res.Failures), res.WallS, res.Extra)
+	for _, d := range res.Disagreements {
+		if d.File != "" {
+			fmt.Printf("DISAGREE %s line %d: %s\n  impl : %s\n  model: %s\n", d.File, d.Line, d.Op, d.Impl, d.Model)
+		}
+	}
+	for _, f := range res.Failures {
+		fmt.Printf("MONITOR-FAIL finding=%q %s (%s)\n", f.Finding, f.Msg, f.File)
 	}
 	if len(res.Disagreements) > 0 || len(res.Failures) > 0 {
 		return 1
@@ -128,7 +250,7 @@ func optsFor(prop, tier string) (core.GenOpts, int) {
 	case "C03":
 		o.Checks = 0.3
 	case "C04":
-		o.Nested, o.Handlers = 0.5, 0.9
+		o.Nested, o.Handlers, o.Subs, o.QueueSubs = 0.5, 0.9, 0.6, true
 	case "C05":
 		o.Handlers = 1.0
 		o.Detach = 0.25
